@@ -407,11 +407,18 @@ func ParseMemberExpr(p *ParserZH) syntax.Expression {
 		}
 		if hasRoot {
 			memberExpr.Root = expr
+			// X之Y begins where X begins (a statement that consists of a member access
+			// alone is executed - and reported - at that line)
+			memberExpr.SetCurrentLine(expr.GetCurrentLine())
 		}
 
 		if match, tk := p.tryConsume(TypeIdentifier); match {
 			id := newID(p, tk)
 			p.setStmtCurrentLine(id, tk)
+			if !hasRoot {
+				// 其Y: 其 stands right before the name
+				p.setStmtCurrentLine(memberExpr, tk)
+			}
 			memberExpr.MemberType = syntax.MemberID
 			memberExpr.MemberID = id
 
